@@ -17,66 +17,121 @@ type vh07Ctx struct {
 	f    File   // target fid
 	dirf File   // a second fid on the same directory (rename target)
 	side string // "a" or "b": names used by this request
+	x    File   // prepared by vh07Prep (the xattr fid of setxattr)
 }
 
+// vh07Prep: steps of a request that are made before the rendezvous (they are requests of their own).
+var vh07Prep = map[string]func(c *vh07Ctx) error{
+	"setxattr": func(c *vh07Ctx) error { // Txattrcreate + Twrite on a clone; the Tclunk of that fid is the request under test
+		_, x, err := c.f.Walk(nil)
+		if err != nil {
+			return err
+		}
+		if err := vh07Send(x, &txattrcreate{fid: vh07Fid(x), Name: "user.x", AttrSize: 1}, &rxattrcreate{}); err != nil {
+			return err
+		}
+		if err := vh07Send(x, &twrite{fid: vh07Fid(x), Data: []byte{1}}, &rwrite{}); err != nil {
+			return err
+		}
+		c.x = x
+		return nil
+	},
+}
+
+// A request is tied to the generated table by protocol-level keys only: the handler, the backend method,
+// the T-message field that carries the fid the backend call is made on (fidf), the role of the
+// receiver relative to that fid (self / child named by namef / parent) — never by names of locals.
 type vh07Req struct {
 	name    string
 	root    string // handler in the generated table
 	method  string // backend method observed / gated
-	recv    string // Coq term: symbolic receiver node of that call
-	refs    []string
-	names   []string // symbolic name keys bound to the request's entry name
-	target  string   // dir | file | link | any
-	open    int      // 1: fid must be opened, -1: must not be, 0: either
-	gate    string   // self | parent | child
+	role    string // self | child | parent
+	fidf    string // T-message field of the fid
+	namef   string // T-message field of the entry name ("" if none)
+	fid2f   string // T-message field of a second fid ("" if none); it is bound to the aux fid
+	aux     string // "" (second fid on the same node) | file (/d/g) | otherdir (/d/e)
+	target  string // dir | dir2 | file | link | any
+	open    int    // 1: fid must be opened, -1: must not be, 0: either
+	gate    string // self | parent | child | child2
 	entry   func(side string) string
 	run     func(c *vh07Ctx) error
 	consume bool // the request destroys the fid
 }
 
+func vh07Send(f File, t message, r message) error {
+	cf := f.(*clientFile)
+	return cf.client.sendRecv(t, r)
+}
+
+func vh07Fid(f File) fid { return f.(*clientFile).fid }
+
 func vh07Reqs() []vh07Req {
 	nm := func(p string) func(string) string { return func(s string) string { return p + s } }
 	none := func(string) string { return "" }
-	ref := []string{"ref"}
 	return []vh07Req{
-		{"getattr", "tgetattr.handle", "GetAttr", `(NOf "ref")`, ref, nil, "any", 0, "self", none, func(c *vh07Ctx) error { _, _, _, err := c.f.GetAttr(AttrMaskAll); return err }, false},
-		{"setattr", "tsetattr.handle", "SetAttr", `(NOf "ref")`, ref, nil, "any", 0, "self", none, func(c *vh07Ctx) error { return c.f.SetAttr(SetAttrMask{Size: true}, SetAttr{Size: 1}) }, false},
-		{"clone", "twalk.handle", "Walk", `(NOf "ref")`, ref, nil, "any", -1, "self", none, func(c *vh07Ctx) error { _, _, err := c.f.Walk(nil); return err }, false},
-		{"walk", "twalk.handle", "Walk", `(NOf "walkRef@doWalk")`, []string{"walkRef@doWalk", "ref"}, []string{"names[0]"}, "dir", -1, "self", nm("w"), func(c *vh07Ctx) error { _, _, err := c.f.Walk([]string{"w" + c.side}); return err }, false},
-		{"walkgetattr", "twalkgetattr.handle", "GetAttr", `(NChild (NOf "walkRef@doWalk") "names[0]")`, []string{"walkRef@doWalk", "ref"}, []string{"names[0]"}, "dir", -1, "child", nm("w"), func(c *vh07Ctx) error {
+		{"getattr", "tgetattr.handle", "GetAttr", "self", "fid", "", "", "", "any", 0, "self", none, func(c *vh07Ctx) error { _, _, _, err := c.f.GetAttr(AttrMaskAll); return err }, false},
+		{"setattr", "tsetattr.handle", "SetAttr", "self", "fid", "", "", "", "any", 0, "self", none, func(c *vh07Ctx) error { return c.f.SetAttr(SetAttrMask{Size: true}, SetAttr{Size: 1}) }, false},
+		{"clone", "twalk.handle", "Walk", "self", "fid", "", "", "", "any", -1, "self", none, func(c *vh07Ctx) error { _, _, err := c.f.Walk(nil); return err }, false},
+		{"walk", "twalk.handle", "Walk", "self", "fid", "Names[*]", "", "", "dir", -1, "self", nm("w"), func(c *vh07Ctx) error { _, _, err := c.f.Walk([]string{"w" + c.side}); return err }, false},
+		{"walkgetattr", "twalkgetattr.handle", "GetAttr", "child", "fid", "Names[*]", "", "", "dir", -1, "child", nm("w"), func(c *vh07Ctx) error {
 			_, _, _, _, err := c.f.WalkGetAttr([]string{"w" + c.side})
 			return err
 		}, false},
-		{"clonegetattr", "twalkgetattr.handle", "Walk", `(NOf "ref")`, ref, nil, "any", -1, "self", none, func(c *vh07Ctx) error { _, _, _, _, err := c.f.WalkGetAttr(nil); return err }, false},
-		{"walkgetattr2", "twalkgetattr.handle", "GetAttr", `(NChild (NOf "walkRef@doWalk") "names[0]")`, []string{"walkRef@doWalk"}, []string{"names[0]"}, "dir2", -1, "child2", nm("w"), func(c *vh07Ctx) error {
+		{"clonegetattr", "twalkgetattr.handle", "Walk", "self", "fid", "", "", "", "any", -1, "self", none, func(c *vh07Ctx) error { _, _, _, _, err := c.f.WalkGetAttr(nil); return err }, false},
+		{"walkgetattr2", "twalkgetattr.handle", "GetAttr", "child", "fid", "Names[*]", "", "", "dir2", -1, "child2", nm("w"), func(c *vh07Ctx) error {
 			_, _, _, _, err := c.f.WalkGetAttr([]string{"c", "w" + c.side})
 			return err
 		}, false},
-		{"open", "tlopen.handle", "Open", `(NOf "ref")`, ref, nil, "any", -1, "self", none, func(c *vh07Ctx) error { _, _, err := c.f.Open(ReadOnly); return err }, false},
-		{"read", "tread.handle", "ReadAt", `(NOf "ref")`, ref, nil, "file", 1, "self", none, func(c *vh07Ctx) error { _, err := c.f.ReadAt(make([]byte, 4), 0); return err }, false},
-		{"write", "twrite.handle", "WriteAt", `(NOf "ref")`, ref, nil, "file", 1, "self", none, func(c *vh07Ctx) error { _, err := c.f.WriteAt([]byte("zz"), 0); return err }, false},
-		{"fsync", "tfsync.handle", "FSync", `(NOf "ref")`, ref, nil, "file", 1, "self", none, func(c *vh07Ctx) error { return c.f.FSync() }, false},
-		{"readdir", "treaddir.handle", "Readdir", `(NOf "ref")`, ref, nil, "dir", 1, "self", none, func(c *vh07Ctx) error { _, err := c.f.Readdir(0, 64); return err }, false},
-		{"readlink", "treadlink.handle", "Readlink", `(NOf "ref")`, ref, nil, "link", 0, "self", none, func(c *vh07Ctx) error { _, err := c.f.Readlink(); return err }, false},
-		{"statfs", "tstatfs.handle", "StatFS", `(NOf "ref")`, ref, nil, "any", 0, "self", none, func(c *vh07Ctx) error { _, err := c.f.StatFS(); return err }, false},
-		{"create", "tlcreate.handle", "Create", `(NOf "ref")`, ref, []string{"t.Name"}, "dir", -1, "self", nm("n"), func(c *vh07Ctx) error {
-			_, _, _, err := c.f.Create("n"+c.side, ReadWrite, 0o644, 0, 0)
-			return err
+		{"open", "tlopen.handle", "Open", "self", "fid", "", "", "", "any", -1, "self", none, func(c *vh07Ctx) error { _, _, err := c.f.Open(ReadOnly); return err }, false},
+		{"read", "tread.handle", "ReadAt", "self", "fid", "", "", "", "file", 1, "self", none, func(c *vh07Ctx) error { _, err := c.f.ReadAt(make([]byte, 4), 0); return err }, false},
+		{"write", "twrite.handle", "WriteAt", "self", "fid", "", "", "", "file", 1, "self", none, func(c *vh07Ctx) error { _, err := c.f.WriteAt([]byte("zz"), 0); return err }, false},
+		{"fsync", "tfsync.handle", "FSync", "self", "fid", "", "", "", "file", 1, "self", none, func(c *vh07Ctx) error { return c.f.FSync() }, false},
+		{"readdir", "treaddir.handle", "Readdir", "self", "Directory", "", "", "", "dir", 1, "self", none, func(c *vh07Ctx) error { _, err := c.f.Readdir(0, 64); return err }, false},
+		{"readlink", "treadlink.handle", "Readlink", "self", "fid", "", "", "", "link", 0, "self", none, func(c *vh07Ctx) error { _, err := c.f.Readlink(); return err }, false},
+		{"statfs", "tstatfs.handle", "StatFS", "self", "fid", "", "", "", "any", 0, "self", none, func(c *vh07Ctx) error { _, err := c.f.StatFS(); return err }, false},
+		{"lock", "tlock.handle", "Lock", "self", "fid", "", "", "", "file", 1, "self", none, func(c *vh07Ctx) error { _, err := c.f.Lock(1, ReadLock, 0, 0, 0, "c"); return err }, false},
+		{"getxattr", "txattrwalk.handle", "GetXattr", "self", "fid", "", "", "", "any", 0, "self", none, func(c *vh07Ctx) error { _, err := c.f.GetXattr("user.x"); return err }, false},
+		{"listxattr", "txattrwalk.handle", "ListXattrs", "self", "fid", "", "", "", "any", 0, "self", none, func(c *vh07Ctx) error { _, err := c.f.ListXattrs(); return err }, false},
+		{"setxattr", "tclunk.handle", "SetXattr", "self", "fid", "", "", "", "any", -1, "self", none, func(c *vh07Ctx) error { return c.x.Close() }, false},
+		{"create", "tlcreate.handle", "Create", "self", "fid", "Name", "", "", "dir", -1, "self", nm("n"), func(c *vh07Ctx) error {
+			return vh07Send(c.f, &tlcreate{fid: vh07Fid(c.f), Name: "n" + c.side, OpenFlags: ReadWrite, Permissions: 0o644}, &rlcreate{})
 		}, true},
-		{"mkdir", "tmkdir.handle", "Mkdir", `(NOf "ref")`, ref, []string{"t.Name"}, "dir", -1, "self", nm("n"), func(c *vh07Ctx) error { _, err := c.f.Mkdir("n"+c.side, 0o755, 0, 0); return err }, false},
-		{"symlink", "tsymlink.handle", "Symlink", `(NOf "ref")`, ref, []string{"t.Name"}, "dir", -1, "self", nm("n"), func(c *vh07Ctx) error { _, err := c.f.Symlink("t", "n"+c.side, 0, 0); return err }, false},
-		{"mknod", "tmknod.handle", "Mknod", `(NOf "ref")`, ref, []string{"t.Name"}, "dir", -1, "self", nm("n"), func(c *vh07Ctx) error { _, err := c.f.Mknod("n"+c.side, ModeNamedPipe|0o644, 0, 0, 0, 0); return err }, false},
-		{"link", "tlink.handle", "Link", `(NOf "ref")`, ref, []string{"t.Name"}, "dir", -1, "self", nm("n"), func(c *vh07Ctx) error { return c.f.Link(c.dirf, "n"+c.side) }, false},
-		{"unlinkat", "tunlinkat.handle", "UnlinkAt", `(NOf "ref")`, ref, []string{"t.Name"}, "dir", -1, "self", nm("u"), func(c *vh07Ctx) error { return c.f.UnlinkAt("u"+c.side, 0) }, false},
-		{"renameat", "trenameat.handle", "RenameAt", `(NOf "ref")`, ref, []string{"t.OldName"}, "dir", -1, "self", nm("r"), func(c *vh07Ctx) error { return c.f.RenameAt("r"+c.side, c.dirf, "m"+c.side) }, false},
-		{"clunk", "tclunk.handle", "Close", `(NOf "fidRef@connState.DeleteFID")`, []string{"fidRef@connState.DeleteFID", "ref"}, nil, "any", 0, "self", none, func(c *vh07Ctx) error { return c.f.Close() }, true},
+		{"ucreate", "tucreate.handle", "Create", "self", "tlcreate.fid", "tlcreate.Name", "", "", "dir", -1, "self", nm("n"), func(c *vh07Ctx) error {
+			return vh07Send(c.f, &tucreate{tlcreate: tlcreate{fid: vh07Fid(c.f), Name: "n" + c.side, OpenFlags: ReadWrite, Permissions: 0o644}}, &rucreate{})
+		}, true},
+		{"mkdir", "tmkdir.handle", "Mkdir", "self", "Directory", "Name", "", "", "dir", -1, "self", nm("n"), func(c *vh07Ctx) error {
+			return vh07Send(c.f, &tmkdir{Directory: vh07Fid(c.f), Name: "n" + c.side, Permissions: 0o755}, &rmkdir{})
+		}, false},
+		{"umkdir", "tumkdir.handle", "Mkdir", "self", "tmkdir.Directory", "tmkdir.Name", "", "", "dir", -1, "self", nm("n"), func(c *vh07Ctx) error {
+			return vh07Send(c.f, &tumkdir{tmkdir: tmkdir{Directory: vh07Fid(c.f), Name: "n" + c.side, Permissions: 0o755}}, &rumkdir{})
+		}, false},
+		{"symlink", "tsymlink.handle", "Symlink", "self", "Directory", "Name", "", "", "dir", -1, "self", nm("n"), func(c *vh07Ctx) error {
+			return vh07Send(c.f, &tsymlink{Directory: vh07Fid(c.f), Name: "n" + c.side, Target: "t"}, &rsymlink{})
+		}, false},
+		{"usymlink", "tusymlink.handle", "Symlink", "self", "tsymlink.Directory", "tsymlink.Name", "", "", "dir", -1, "self", nm("n"), func(c *vh07Ctx) error {
+			return vh07Send(c.f, &tusymlink{tsymlink: tsymlink{Directory: vh07Fid(c.f), Name: "n" + c.side, Target: "t"}}, &rusymlink{})
+		}, false},
+		{"mknod", "tmknod.handle", "Mknod", "self", "Directory", "Name", "", "", "dir", -1, "self", nm("n"), func(c *vh07Ctx) error {
+			return vh07Send(c.f, &tmknod{Directory: vh07Fid(c.f), Name: "n" + c.side, Mode: ModeNamedPipe | 0o644}, &rmknod{})
+		}, false},
+		{"umknod", "tumknod.handle", "Mknod", "self", "tmknod.Directory", "tmknod.Name", "", "", "dir", -1, "self", nm("n"), func(c *vh07Ctx) error {
+			return vh07Send(c.f, &tumknod{tmknod: tmknod{Directory: vh07Fid(c.f), Name: "n" + c.side, Mode: ModeNamedPipe | 0o644}}, &rumknod{})
+		}, false},
+		{"link", "tlink.handle", "Link", "self", "Directory", "Name", "Target", "file", "dir", -1, "self", nm("n"), func(c *vh07Ctx) error { return c.f.Link(c.dirf, "n"+c.side) }, false},
+		{"unlinkat", "tunlinkat.handle", "UnlinkAt", "self", "Directory", "Name", "", "", "dir", -1, "self", nm("u"), func(c *vh07Ctx) error { return c.f.UnlinkAt("u"+c.side, 0) }, false},
+		{"renameat", "trenameat.handle", "RenameAt", "self", "OldDirectory", "OldName", "NewDirectory", "otherdir", "dir", -1, "self", nm("r"), func(c *vh07Ctx) error { return c.f.RenameAt("r"+c.side, c.dirf, "m"+c.side) }, false},
+		{"rename", "trename.handle", "RenameAt", "parent", "fid", "", "Directory", "otherdir", "file", 0, "parent", none, func(c *vh07Ctx) error { return c.f.Rename(c.dirf, "m"+c.side) }, false},
+		{"remove", "tremove.handle", "UnlinkAt", "parent", "fid", "", "", "", "file", 0, "parent", none, func(c *vh07Ctx) error { return c.f.(*clientFile).Remove() }, true},
+		{"clunk", "tclunk.handle", "Close", "self", "fid", "", "", "", "any", 0, "self", none, func(c *vh07Ctx) error { return c.f.Close() }, true},
 	}
 }
 
 type vh07Rq struct {
 	Root   string            `json:"root"`
 	Method string            `json:"method"`
-	Recv   string            `json:"recv"`
+	Role   string            `json:"role"`  // self | child | parent
+	FidF   string            `json:"fidf"`  // T-message field of the fid the call is made on
+	NameF  string            `json:"namef"` // T-message field of the entry name
 	Refs   map[string]string `json:"refs"`  // symbolic ref -> path ("/d/c")
 	Names  map[string]string `json:"names"` // symbolic name -> entry
 	Conn   int               `json:"conn"`
@@ -103,12 +158,12 @@ type vh07Obs struct {
 	_       float64 `json:"-"`
 }
 
-var vh07Rels = []string{"samefid", "twofids", "crossconn", "parentchild", "childparent", "siblings", "entrychild", "entryparent"}
+var vh07Rels = []string{"samefid", "twofids", "crossconn", "parentchild", "childparent", "siblings", "entrychild", "entryparent", "createdfid", "root"}
 
 func vh07Seed(fs *vhgFS) {
 	fs.add("/d", ModeDirectory|0o755, "")
-	for _, d := range []string{"/d", "/d/c", "/d/e"} {
-		if d != "/d" {
+	for _, d := range []string{"", "/d", "/d/c", "/d/e"} {
+		if d != "/d" && d != "" {
 			fs.add(d, ModeDirectory|0o755, "")
 		}
 		for _, n := range []string{"wa", "wb", "ua", "ub", "ra", "rb"} {
@@ -153,6 +208,16 @@ func vh07Pick(a, b *vh07Req, rel string) (pa, pb string, ok bool) {
 		}
 	}
 	switch rel {
+	case "createdfid": // the first request uses the fid a Tlcreate produced, the second a fid walked to the same path
+		if (a.target != "file" && a.target != "any") || a.open < 0 || (b.target != "file" && b.target != "any") {
+			return "", "", false
+		}
+		return "/d/c/zf", "/d/c/zf", true
+	case "root": // both on the attach point (two attaches)
+		if (a.target != "dir" && a.target != "any") || (b.target != "dir" && b.target != "any") {
+			return "", "", false
+		}
+		return "", "", true
 	case "samefid", "twofids", "crossconn":
 		t := a.target
 		if t == "any" {
@@ -213,6 +278,10 @@ func vh07GatePath(r *vh07Req, p, side string) string {
 		return p + "/" + r.entry(side)
 	case "child2":
 		return p + "/c/" + r.entry(side)
+	case "parent":
+		if i := strings.LastIndex(p, "/"); i >= 0 {
+			return p[:i]
+		}
 	}
 	return p
 }
@@ -248,7 +317,7 @@ func vh07One(a, b *vh07Req, rel string, wait time.Duration, tries int) vh07Obs {
 		}
 		connB := 0
 		rb := ra
-		if rel == "crossconn" {
+		if rel == "crossconn" || rel == "root" {
 			connB = 1
 			if rb, err = env.clients[1].Attach(""); err != nil {
 				return fail("attach: " + err.Error())
@@ -276,8 +345,16 @@ func vh07One(a, b *vh07Req, rel string, wait time.Duration, tries int) vh07Obs {
 		if rel == "samefid" && b.open > 0 {
 			openA = 1
 		}
-		fa, err := mk(ra, pa, openA, flagsFor(pa))
-		if err != nil {
+		var fa File
+		if rel == "createdfid" {
+			d, err := vh07Walk(ra, "/d/c")
+			if err != nil {
+				return fail("prepare a: " + err.Error())
+			}
+			if fa, _, _, err = d.Create("zf", ReadWrite, 0o644, 0, 0); err != nil {
+				return fail("prepare a (create): " + err.Error())
+			}
+		} else if fa, err = mk(ra, pa, openA, flagsFor(pa)); err != nil {
 			return fail("prepare a: " + err.Error())
 		}
 		fb := fa
@@ -286,39 +363,63 @@ func vh07One(a, b *vh07Req, rel string, wait time.Duration, tries int) vh07Obs {
 				return fail("prepare b: " + err.Error())
 			}
 		}
-		da, err := vh07Walk(ra, pa)
+		auxPath := func(r *vh07Req, p string) string {
+			switch r.aux {
+			case "file":
+				return "/d/g"
+			case "otherdir":
+				return "/d/e"
+			}
+			return p
+		}
+		auxA, auxB := auxPath(a, pa), auxPath(b, pb)
+		da, err := vh07Walk(ra, auxA)
 		if err != nil {
 			return fail("prepare a2: " + err.Error())
 		}
-		db, err := vh07Walk(rb, pb)
+		db, err := vh07Walk(rb, auxB)
 		if err != nil {
 			return fail("prepare b2: " + err.Error())
 		}
 		ca := &vh07Ctx{f: fa, dirf: da, side: "a"}
 		cb := &vh07Ctx{f: fb, dirf: db, side: "b"}
+		for _, pc := range []struct {
+			r *vh07Req
+			c *vh07Ctx
+		}{{a, ca}, {b, cb}} {
+			if pf := vh07Prep[pc.r.name]; pf != nil {
+				if err := pf(pc.c); err != nil {
+					return fail("prepare " + pc.r.name + ": " + err.Error())
+				}
+			}
+		}
 		fidA, fidB := "a", "b"
 		if rel == "samefid" {
 			fidB = "a"
 		}
-		bind := func(r *vh07Req, p, side string, conn int, fid string) vh07Rq {
-			q := vh07Rq{Root: r.root, Method: r.method, Recv: r.recv, Refs: map[string]string{}, Names: map[string]string{}, Conn: conn, Fid: fid}
-			for _, s := range r.refs {
-				q.Refs[s] = p
-			}
+		bind := func(r *vh07Req, p, aux, side string, conn int, fid string) vh07Rq {
+			q := vh07Rq{Root: r.root, Method: r.method, Role: r.role, FidF: r.fidf, NameF: r.namef, Refs: map[string]string{}, Names: map[string]string{}, Conn: conn, Fid: fid}
+			q.Refs[r.fidf] = p
 			if r.gate == "child2" {
-				q.Refs["walkRef@doWalk"] = p + "/c"
-				q.Refs["ref"] = p
+				q.Refs[r.fidf] = p + "/c" // the walk position when the second component is walked
 			}
-			for _, s := range r.names {
-				q.Names[s] = r.entry(side)
+			if r.fid2f != "" {
+				q.Refs[r.fid2f] = aux
+			}
+			if r.namef != "" {
+				q.Names[r.namef] = r.entry(side)
 			}
 			q.Node = vh07GatePath(r, p, side)
 			if r.method == "UnlinkAt" {
-				q.Entry = p + "/" + r.entry(side)
+				if r.role == "parent" {
+					q.Entry = p
+				} else {
+					q.Entry = p + "/" + r.entry(side)
+				}
 			}
 			return q
 		}
-		o.A, o.B = bind(a, pa, "a", 0, fidA), bind(b, pb, "b", connB, fidB)
+		o.A, o.B = bind(a, pa, auxA, "a", 0, fidA), bind(b, pb, auxB, "b", connB, fidB)
 
 		g := fs.arm(a.method, vh07GatePath(a, pa, "a"), 0)
 		doneA, doneB := make(chan struct{}), make(chan struct{})
